@@ -3,12 +3,22 @@ import json, os, random, re, subprocess, concurrent.futures as cf
 import vlib
 
 MC = "MC_Pbf"
+# schedule bias profiles of the random walks (weight per goroutine class); {} = uniform
+WEIGHTS = [{}, {}, {"r": 12, "w": 1, "s": 1, "c": 1}, {"r": 6, "w": 6, "s": 1, "c": 1}, {"r": 1, "w": 1, "s": 1, "c": 8},
+           {"r": 8, "w": 1, "s": 4, "c": 4}, {"r": 4, "w": 1, "s": 1, "c": 1}]
+
+
+def slow_choice(rng):
+    """jitter runs: nobody slow, or the reader / one decoder / the serializer made slow (class byte, worker, microseconds)"""
+    return rng.choice([[], [ord("w"), 0, 1500], [ord("w"), 1, 800], [ord("r"), 0, 500], [ord("s"), 0, 500], [ord("w"), 2, 2500],
+                       [ord("w"), 0, 4000], [ord("w"), 1, 3000]])
 
 
 def gen_walk_space(ctx):
     """configs x scripts from PbfGenWalk.tla (the input space lives in TLA+)."""
     cfg = "PbfGenWalk_quick.cfg" if ctx.quick() else "PbfGenWalk_thorough.cfg"
     d = vlib.tlc_gen(ctx, "PbfGenWalk", cfg, count_states=False)[0]
+    ctx.jitter_configs = d["jitter"]
     return d["configs"], d["stop"], d["plain"]
 
 
